@@ -35,6 +35,8 @@ def all_configs(tier):
                    bound='as s1_weekly with the bar of day 3 (Thu) missing: event times no longer coincide with price rows'))
     c.append(_base('s2_weekly', assets=['EQ:A', 'EQ:B'], weights={'EQ:A': 0.6, 'EQ:B': 0.4}, weight=2000, chunk=4,
                    bound='2 assets (weights 0.6/0.4), 8 business days, weekly WED, long-only 5% buffer, 0.1% fee'))
+    c.append(_base('s2_weekly5', assets=['EQ:A', 'EQ:B'], weights={'EQ:A': 0.6, 'EQ:B': 0.4}, nd=5, weight=1200, chunk=4,
+                   bound='2 assets (weights 0.6/0.4), 5 business days (one rebalance on WED, filled on THU), long-only 5% buffer, 0.1% fee'))
     c.append(_base('s2_latestart', assets=['EQ:A', 'EQ:B'], weights={'EQ:A': 0.5, 'EQ:B': 0.5}, first_bar={'EQ:B': 4}, weight=1500, chunk=4,
                    bound='2 assets, the bars of B start on day 4 (after the first rebalance on day 2): the price of B is unavailable when first sized'))
     c.append(_base('s2_dynamic_signals', assets=['EQ:A', 'EQ:B'], universe='dynamic', entries={'EQ:A': '2020-01-07 00:00', 'EQ:B': '2020-01-07 00:00'},
@@ -44,16 +46,18 @@ def all_configs(tier):
                    bound='1 asset, 9 business days, weekly THU, burn-in exactly on the first rebalance instant'))
     c.append(_base('s1_bah', rebalance='buy_and_hold', start_tod='14:30', nd=5,
                    bound='1 asset, buy-and-hold from a 14:30 start, 5 business days'))
+    c.append(_base('s1_ls', long_only=False, weights={'EQ:A': -1.0}, nd=6, bound='1 asset short, long/short leverage 1.5, weekly WED, 6 days'))
+    c.append(_base('s1_two_rebalances', weekday='TUE', nd=8, bound='1 asset, weekly TUE: two rebalances (days 1 and 6) both of which fill, 8 days'))
+    c.append(_base('s1_burnin_between', burn_in='2020-01-09 00:00', nd=9, bound='1 asset, 9 days, weekly WED, burn-in between two rebalances (the first rebalance must be skipped)'))
     if tier == 'thorough':
         c.append(_base('s3_dynamic_signals', assets=['EQ:A', 'EQ:B', 'EQ:C'], universe='dynamic',
                        entries={'EQ:A': '2020-01-01 00:00', 'EQ:B': '2020-01-07 00:00', 'EQ:C': '2020-01-07 00:00'}, alpha='sma_trend', nd=5, weight=4000, chunk=4,
                        bound='3 assets (A from the start, B and C entering together on day 1), SMA(2) signals, trend-following alpha, weekly WED, 5 days'))
-        c.append(_base('s1_ls', long_only=False, weights={'EQ:A': -1.0}, bound='1 asset short, long/short leverage 1.5, weekly WED, 8 days'))
+        c.append(_base('s1_ls8', long_only=False, weights={'EQ:A': -1.0}, bound='1 asset short, long/short leverage 1.5, weekly WED, 8 days'))
         c.append(_base('s2_ls', assets=['EQ:A', 'EQ:B'], long_only=False, weights={'EQ:A': 0.5, 'EQ:B': -0.5}, weight=3000, chunk=4,
                        bound='2 assets long/short (0.5,-0.5), leverage 1.5, weekly WED, 8 days'))
         c.append(_base('s1_eom', rebalance='end_of_month', start='2020-01-29', nd=6, bound='1 asset, end-of-month across the January 2020 month end, 6 days'))
         c.append(_base('s1_daily', rebalance='daily', nd=3, bound='1 asset, daily rebalance, 3 business days (2 rebalances fill)'))
-        c.append(_base('s1_burnin_between', burn_in='2020-01-09 00:00', nd=9, bound='1 asset, 9 days, weekly WED, burn-in between two rebalances'))
         c.append(_base('s1_weekly_fri', weekday='FRI', nd=7, bound='1 asset, weekly FRI (fills on the following Monday), 7 days'))
         c.append(_base('s2_weekly_holiday', assets=['EQ:A', 'EQ:B'], weights={'EQ:A': 0.5, 'EQ:B': 0.5}, missing={'EQ:B': [3]}, weight=2500, chunk=4,
                        bound='2 assets, bar of day 3 missing for B, weekly WED, 8 days'))
@@ -62,10 +66,10 @@ def all_configs(tier):
 
 
 PROP_CONFIGS = {
-    'C07': dict(quick=['s1_weekly', 's1_weekly_holiday', 's2_weekly', 's2_latestart'], thorough=None),
-    'C08': dict(quick=['s1_weekly', 's1_bah'], thorough=['s1_weekly', 's1_bah', 's2_weekly', 's1_ls', 's2_ls', 's1_eom', 's1_daily', 's1_weekly_fri', 's1_zerofee_weekly_mon']),
-    'C18': dict(quick=['s2_weekly', 's2_dynamic_signals'], thorough=['s2_weekly', 's2_dynamic_signals', 's1_weekly', 's2_ls', 's3_dynamic_signals']),
-    'C14': dict(quick=['s1_weekly', 's1_burnin', 's1_bah'], thorough=['s1_weekly', 's1_burnin', 's1_bah', 's1_burnin_between', 's1_eom', 's1_daily', 's2_weekly', 's1_weekly_fri']),
+    'C07': dict(quick=['s1_weekly', 's1_weekly_holiday', 's2_weekly5', 's2_latestart'], thorough=None),
+    'C08': dict(quick=['s1_weekly', 's1_bah', 's1_ls', 's1_two_rebalances'], thorough=['s1_weekly', 's1_bah', 's2_weekly', 's1_ls', 's1_ls8', 's1_two_rebalances', 's2_ls', 's1_eom', 's1_daily', 's1_weekly_fri', 's1_zerofee_weekly_mon']),
+    'C18': dict(quick=['s2_weekly5', 's2_dynamic_signals'], thorough=['s2_weekly', 's2_dynamic_signals', 's1_weekly', 's2_ls', 's3_dynamic_signals']),
+    'C14': dict(quick=['s1_weekly', 's1_burnin', 's1_burnin_between', 's1_bah'], thorough=['s1_weekly', 's1_burnin', 's1_bah', 's1_burnin_between', 's1_eom', 's1_daily', 's2_weekly', 's1_weekly_fri']),
 }
 
 
@@ -120,6 +124,7 @@ def ts(d, hh, mm):
 
 
 class Session(Harness):
+    chain_lemmas = True
     obligation_timeout_ms = 60000
     feasibility_timeout_ms = 5000
 
@@ -149,13 +154,20 @@ class Session(Harness):
                         n = self.vname(a, oc, k, alt)
                         m[n] = mk.real(n)
         d = dict(m=m)
+        if self.prop == 'C08':
+            # symbolic initial cash: with a concrete one the first sizing is pure double arithmetic inside the
+            # implementation (rounded at every step), which exact real arithmetic cannot mirror
+            d['cash'] = mk.real('initial_cash')
         if self.prop == 'C18':
             d['perm'] = [mk.flag('set_order_choice%d' % k) for k in range(NPERM)]
         return d
 
     def assume(self, L, i):
         lo, hi = self.cfg['price_lo'], self.cfg['price_hi']
-        return [L.And(L.gt(v, lo), L.lt(v, hi)) for v in i['m'].values()]
+        cs = [L.And(L.gt(v, lo), L.lt(v, hi)) for v in i['m'].values()]
+        if 'cash' in i:
+            cs += [L.ge(i['cash'], 10 ** 5), L.le(i['cash'], 10 ** 7)]
+        return cs
 
     def friendly(self, L, i):
         return [L.And(L.ge(v, 5), L.le(v, 500)) for v in i['m'].values()]
@@ -169,7 +181,7 @@ class Session(Harness):
             return i['m'][self.vname(a, oc, k)]
         return val
 
-    def backtest(self, val, truncate_after=None, session_hook=None, reuse=None, warm=None, ids='a'):
+    def backtest(self, val, truncate_after=None, session_hook=None, reuse=None, warm=None, ids='a', keep_cache=False, only_source=False, cash=None):
         import pandas as pd, numpy as np, pytz
         from qstrader.data.daily_bar_csv import CSVDailyBarDataSource
         from qstrader.data.backtest_data_handler import BacktestDataHandler
@@ -196,8 +208,9 @@ class Session(Harness):
         if reuse is not None:
             ds = reuse['ds']          # a data-source object that already served an earlier session (memo caches warm)
         else:
-            CSVDailyBarDataSource.get_bid.cache_clear()
-            CSVDailyBarDataSource.get_ask.cache_clear()
+            if not keep_cache:
+                CSVDailyBarDataSource.get_bid.cache_clear()
+                CSVDailyBarDataSource.get_ask.cache_clear()
             ds = object.__new__(CSVDailyBarDataSource)
             ds.csv_dir = None
             ds.asset_type = None
@@ -209,6 +222,8 @@ class Session(Harness):
             for (t_, a_) in warm:     # arbitrary earlier queries against the shared, memoised source
                 ds.get_bid(t_, a_)
                 ds.get_ask(t_, a_)
+        if only_source:
+            return dict(ds=ds)
         import qstrader.execution.order as _ordmod
         counter = {'n': 0}
 
@@ -250,7 +265,7 @@ class Session(Harness):
             alpha = SingleSignalAlphaModel(uni, signal=1.0)
         start = pd.Timestamp('%s %s' % (cfg['start'], cfg['start_tod']), tz=pytz.UTC)
         end = pd.Timestamp('%s 23:59' % self.days[-1].isoformat(), tz=pytz.UTC)
-        kw = dict(rebalance=cfg['rebalance'], long_only=cfg['long_only'], data_handler=dh, initial_cash=cfg['cash'],
+        kw = dict(rebalance=cfg['rebalance'], long_only=cfg['long_only'], data_handler=dh, initial_cash=(cfg['cash'] if cash is None else cash),
                   fee_model=PercentFeeModel(*cfg['fee']) if cfg['fee'] else ZeroFeeModel())
         if cfg['rebalance'] == 'weekly':
             kw['rebalance_weekday'] = cfg['weekday']
@@ -300,7 +315,7 @@ class Session(Harness):
         return list(c) if c is not None else [self.cfg['nd'] // 2 - 1]
 
     def run(self, i):
-        base = self.backtest(self.market(i))
+        base = self.backtest(self.market(i), cash=i.get('cash'))
         out = dict(base=base)
         if core.EX is not None:
             out['base_marks'] = list(core.EX.marks)
@@ -360,6 +375,12 @@ class Session(Harness):
         warm = [(pd.Timestamp('%s 21:00' % d.isoformat(), tz='UTC'), a) for d in self.days[::2] for a in self.A] + \
                [(pd.Timestamp('%s 03:17' % self.days[1].isoformat(), tz='UTC'), self.A[0])]
         v['warm_cache'] = self.backtest(self.market(i), reuse=base, warm=warm)
+        # (1b) a fresh source object while the class-wide memo still holds the answers another source object (other data:
+        #      every price doubled) gave for the very same instants and assets
+        every = [(t_, a) for d in self.days for t_ in (ts(d, 14, 30), ts(d, 21, 0)) for a in self.A]
+        other = self.market(i)
+        self.backtest(lambda a, oc, k: other(a, oc, k) * 2.0, warm=every, only_source=True)
+        v['after_other_source'] = self.backtest(self.market(i), keep_cache=True)
         # (2) other order ids (sorting differently) and arbitrary set iteration orders
         saved = (pcm_mod.__dict__.get('set', None), sig_mod.__dict__.get('set', None))
         pcm_mod.set = NondetSet
@@ -630,7 +651,11 @@ class Session(Harness):
                 if g:
                     obl.append(('%s:%s:quantity' % (t, a), L.ne(g[0]['quantity'], q_ref)))
                     obl.append(('%s:%s:price_is_the_open' % (t, a), L.ne(g[0]['price'], p_ref)))
-                    obl.append(('%s:%s:commission' % (t, a), L.ne(g[0]['commission'], c_ref)))
+                    # commission per the rule on THIS fill's own price and quantity (each proven equal to the reference's by the two
+                    # obligations above): keeps the rounded consideration syntactically identical on both sides
+                    fr = (Fraction(self.cfg['fee'][0]) + Fraction(self.cfg['fee'][1])) if self.cfg['fee'] else 0
+                    c_rule = fr * L.abs(L.round0(R(g[0]['price']) * R(g[0]['quantity']))) if self.cfg['fee'] else 0
+                    obl.append(('%s:%s:commission' % (t, a), L.ne(g[0]['commission'], c_rule)))
                 else:
                     obl.append(('%s:%s:order_missing' % (t, a), L.ne(q_ref, 0)))
         obl.append(('final_cash', L.ne(run['cash'], ref['cash'])))
@@ -640,7 +665,10 @@ class Session(Harness):
         obl.append(('equity_dates', L.bool([d for d, _ in run['equity']] != [d for d, _ in ref['equity']])))
         for (d, v), (d2, v2) in zip(run['equity'], ref['equity']):
             obl.append(('equity@%s' % d.date(), L.ne(v, v2)))
-        return obl
+        # the sizing rules presuppose a positive portfolio equity at every sizing instant (as C10/C11 do): a market that
+        # drives equity to zero or below is outside the claim
+        pos = L.And(*[L.gt(e, 0) for e in ref['sizing_equity']]) if ref['sizing_equity'] else L.true
+        return [(n, L.And(pos, f)) for n, f in obl]
 
     def twins(self, L, i, out):
         if out.kind != 'ok':
